@@ -517,6 +517,8 @@ Definition menu (c : Z) : option fld :=
   else if c =? 38 then Some (tuple_fld [u8_fld; bool_fld; u8_fld])         (* (u8, bool, u8) *)
   else if c =? 39 then Some (tuple_fld [pod_fld 4 4; u8_fld; u8_fld])      (* (u32, u8, u8) *)
   else if c =? 40 then Some (tuple_fld [u8_fld; pod_fld 2 2; u8_fld])      (* (u8, u16, u8) *)
+  else if c =? 41 then Some (pod_fld 0 8)                                 (* [u64; 0]: no bytes, alignment 8 *)
+  else if c =? 42 then Some (pod_fld 0 2)                                 (* [u16; 0] *)
   else None.
 
 Definition as_param (f : fld) : fld :=
